@@ -359,6 +359,20 @@ func c04Policy(r *Rng, kind int, ntasks int, totalSteps int64) policy {
 			simrt.NextSyncQuantum = 1 + int64(r.U64()%uint64(k))
 			return run[r.Intn(len(run))], 1 + int64(r.U64()%uint64(q))
 		}}
+	case 5: // chase: the next task runs until it touches the object the last one just touched, then k more operations
+		return policy{"sync-chase", func(run []int, last int, _ uint32) (int, int64) {
+			pickT := run[r.Intn(len(run))]
+			if len(run) > 1 && last != 0 {
+				for pickT == last {
+					pickT = run[r.Intn(len(run))]
+				}
+			}
+			simrt.NextSyncQuantum = 1 + int64(r.U64()%3)
+			if simrt.PrevSyncObj != nil && last != 0 && r.Chance(0.7) {
+				simrt.NextUntilObj = simrt.PrevSyncObj
+			}
+			return pickT, 1 << 40
+		}}
 	default: // round-robin with a random quantum
 		q := int64(pick(r, []int{1, 3, 17, 120, 900}))
 		return policy{fmt.Sprintf("round-robin(q=%d)", q), func(run []int, last int, _ uint32) (int, int64) {
@@ -774,7 +788,7 @@ func (ck c04) RunCase(c *Ctx, idx int) *CaseOut {
 		if s > 1 {
 			kind = 1 + r.Intn(3)
 			if syncOps > 0 && (r.Chance(0.3) || s >= S0) {
-				kind = 4 // the sequential schedule executed synchronisation operations: preempt around them
+				kind = 4 + r.Intn(2) // the sequential schedule executed synchronisation operations: preempt around them
 			}
 		}
 		pol := c04Policy(r.Fork(uint64(1000+s)), kind, len(cs.Tasks), total)
